@@ -11,7 +11,7 @@ open Demeter.Deribit
 
 namespace Deribit
 
-theorem findInstr_setAsks (book : List Instr) (n : String) (ls : List Level) :
+theorem findInstr_setAsks_same (book : List Instr) (n : String) (ls : List Level) :
     findInstr (setAsks book n ls) n = (findInstr book n).map (fun i => { i with asks := ls }) := by
   unfold findInstr setAsks
   induction book with
@@ -22,7 +22,7 @@ theorem findInstr_setAsks (book : List Instr) (n : String) (ls : List Level) :
     · simp only [List.map_cons, hi, if_false, List.find?_cons, decide_false]
       exact ih
 
-theorem findInstr_setBids (book : List Instr) (n : String) (ls : List Level) :
+theorem findInstr_setBids_same (book : List Instr) (n : String) (ls : List Level) :
     findInstr (setBids book n ls) n = (findInstr book n).map (fun i => { i with bids := ls }) := by
   unfold findInstr setBids
   induction book with
@@ -190,7 +190,7 @@ theorem C15_following_order_sees_shrunken_book (c : TokenCfg) (s s' : DState) (r
   have hsum := sizeSum_newOrderList _ fills hnd hprices
   have hfind' : findInstr s'.book r.name =
       some { ins with asks := newOrderList DCtx.exact (normSide DCtx.exact true ins.asks) fills } := by
-    rw [hbook, findInstr_setAsks, hfind]; rfl
+    rw [hbook, findInstr_setAsks_same, hfind]; rfl
   have hso' : ins.stateOpen = true := by rw [hnorm] at hso; exact hso
   refine ⟨ins, hfind, ⟨_, hfind', ?_⟩, ?_, ?_⟩
   · simp only [normSide_newOrderList]; exact hsum
@@ -242,7 +242,7 @@ theorem C15_following_sell_sees_shrunken_book (c : TokenCfg) (s s' : DState) (r 
   have hsum := sizeSum_newOrderList _ fills hnd hprices
   have hfind' : findInstr s'.book r.name =
       some { ins with bids := newOrderList DCtx.exact (normSide DCtx.exact false ins.bids) fills } := by
-    rw [hbook, findInstr_setBids, hfind]; rfl
+    rw [hbook, findInstr_setBids_same, hfind]; rfl
   have hso' : ins.stateOpen = true := by rw [hnorm] at hso; exact hso
   refine ⟨ins, hfind, ⟨_, hfind', ?_⟩, ?_, ?_⟩
   · simp only [normSide_newOrderList]; exact hsum
